@@ -211,6 +211,52 @@ Definition next_step (s : mstate) (tg : targets) (set_aside : list Z) : step :=
   end.
 
 (* ------------------------------------------------------------------------------------------ *)
+(** * The status view (state.rs, [transaction_statuses], [expired_transactions]) *)
+
+Inductive action := AProve | ABroadcast.
+Inductive blocker :=
+| BDependencies | BSchedule | BAnchorBoundary | BSignature
+| BExpiryImminent | BExpired | BAwaitingReevaluation | BUnsatisfiable.
+
+Record txstatus := MkStatus {
+  ts_id : Z; ts_ready : bool; ts_action : option action; ts_blocked : option blocker;
+  ts_ukind : option ukind; ts_mined : option Z }.
+
+Definition row_unsatisfiable (dead : list Z) (t : mtx) : bool :=
+  negb (is_mined t) && (is_some (t_unsat t) || existsb (fun d => mem d dead) (t_deps t)).
+
+Definition tx_status (s : mstate) (tg : targets) (dead : list Z) (t : mtx) : txstatus :=
+  let deps_ok := deps_mined (m_txs s) (t_deps t) in
+  let unsat := row_unsatisfiable dead t in
+  let uk := if unsat then Some (match t_unsat t with Some (_, k) => k | None => KInherited end) else None in
+  let awaiting := negb (is_mined t) && is_some (t_fail t) in
+  let '(ready, act, blk) :=
+    if unsat then (false, None, Some BUnsatisfiable)
+    else if awaiting then (false, None, Some BAwaitingReevaluation)
+    else if is_expired t (tg_scanned tg) then (false, None, Some BExpired)
+    else if is_expired t (tg_eff tg) then (false, None, Some BExpiryImminent)
+    else match t_state t with
+         | AwaitingSig => (false, None, Some BSignature)
+         | Signed =>
+           if negb deps_ok then (false, None, Some BDependencies)
+           else if prove_ready s tg t then (true, Some AProve, None)
+           else (false, None, Some (match t_anchor t with Some _ => BAnchorBoundary | None => BSchedule end))
+         | Proved =>
+           if negb deps_ok then (false, None, Some BDependencies)
+           else if t_sched t <=? tg_eff tg then (true, Some ABroadcast, None)
+           else (false, None, Some BSchedule)
+         | Bcast => (false, None, None)
+         | Mined _ => (false, None, None)
+         end in
+  MkStatus (t_id t) ready act blk uk (match t_state t with Mined h => Some h | _ => None end).
+
+Definition transaction_statuses (s : mstate) (tg : targets) : list txstatus :=
+  map (tx_status s tg (dead_set s tg)) (m_txs s).
+
+Definition expired_transactions (s : mstate) (tg : targets) : list Z :=
+  map t_id (filter (fun t => is_expired t (tg_scanned tg)) (m_txs s)).
+
+(* ------------------------------------------------------------------------------------------ *)
 (** * Mutators (state.rs, engine.rs) *)
 
 Definition recompute_status (s : mstate) : mstate :=
@@ -378,11 +424,11 @@ Definition rebuild (s : mstate) (id target : Z) (grid_ok crypto_ok external : bo
 (** * Anchor redraw (scheduling.rs) under a scripted RNG
 
     The harness drives [advance_migration] with an RNG whose n-th word is [1 << (age_n - 1)], so
-    [draw_anchor_age] returns [age_n] and consumes exactly one word; the script is cyclic. *)
+    [draw_anchor_age] returns [age_n] and consumes exactly one word; past the end of the script
+    every word is [1] (odd: age 1, which the sampler always accepts). *)
 Definition rng := (list Z * nat)%type.
 Definition rng_next (r : rng) : Z * rng :=
-  let '(ages, pos) := r in
-  (nth (Nat.modulo pos (Nat.max 1 (length ages))) ages 1, (ages, S pos)).
+  let '(ages, pos) := r in (nth pos ages 1, (ages, S pos)).
 
 Fixpoint sample_boundary (fuel : nat) (ivl lowest highest most_recent : Z) (r : rng) : Z * rng :=
   match fuel with
@@ -402,13 +448,16 @@ Definition boundary_at_or_below (ivl h : Z) : Z := h - (h mod ivl).
 Definition boundary_at_or_above (ivl h : Z) : Z :=
   let r := h mod ivl in if r =? 0 then h else sat_add h (ivl - r).
 
-Definition redraw_anchor_boundary (ivl prior bh : Z) (r : rng) : option Z * rng :=
+Definition redraw_anchor_boundary_f (fuel : nat) (ivl prior bh : Z) (r : rng) : option Z * rng :=
   let most_recent := boundary_at_or_below ivl bh in
   if most_recent <? ivl then (None, r) else
   let highest := most_recent - ivl in
   let lowest := boundary_at_or_above ivl prior in
   if highest <? lowest then (None, r) else
-  let '(c, r') := sample_boundary 64 ivl lowest highest most_recent r in (Some c, r').
+  let '(c, r') := sample_boundary fuel ivl lowest highest most_recent r in (Some c, r').
+(** the rejection loop of the code is unbounded; 64 draws always suffice for a script of at most
+    63 ages ([redraw_fuel_irrelevant] in ProofsSampler.v) *)
+Definition redraw_anchor_boundary := redraw_anchor_boundary_f 64.
 
 Definition shift_tx (ivl delta : Z) (acc : list mtx * rng) (t : mtx) : list mtx * rng :=
   let '(out, r) := acc in
